@@ -59,3 +59,79 @@ Example C07_node_premises_satisfiable :
   (forall Pn w, node_paths exV exE 1 Pn -> (2 <= node_klae_cost exV exfq exsc [] 1 Pn w)%Q).
 Proof. exact ex_c07_premises. Qed.
 Print Assumptions C07_node_premises_satisfiable.
+
+(* ---- audit additions (agent-c19): instances of the hypotheses the Example above does not reach ---- *)
+From Coq Require Import Lqa.
+From FP Require ErrEncProofs ErrEncProofs2 ErrEncComplete ErrEncOptimal.
+
+(* (a) the SOLVER hypotheses of C07_node_klae_optimal -- `sat a` and optimality of a -- hold for an explicit assignment on the chain
+   1 -> 2 (weights 3, 5; k = 1): the assignment of the completeness proof for the path 100,2,3,4,5,101 of the expansion with weight 4;
+   its objective is 2.  Optimality: a satisfying assignment decodes to a path whose errors its error variables dominate
+   (klae_decodes), the path contracts to one of the caller's graph, and every such choice costs >= 2 (Example above). *)
+Definition C07_node_wit_a : var -> Q :=
+  klae_asg (node_err_inst exV exE 100 101 exfq exsc [] false 1) (expP 100 101 exPn) (fun _ => 4%Q) (fun _ => 0%N).
+
+Example C07_node_solver_hypotheses_satisfiable :
+  let I := node_err_inst exV exE 100 101 exfq exsc [] false 1 in
+  sat C07_node_wit_a (encode_klae I) /\ (objective C07_node_wit_a (encode_klae I) == 2)%Q /\
+  (forall b, sat b (encode_klae I) -> (objective C07_node_wit_a (encode_klae I) <= objective b (encode_klae I))%Q).
+Proof.
+  cbn zeta. set (I := node_err_inst exV exE 100 101 exfq exsc [] false 1).
+  destruct C07_node_premises_satisfiable as (NDV & NDE & HE & Htopo & Hincl & Hs & Ht & Hst & Hdom & _ & _ & Hmin).
+  assert (E2 : (objective C07_node_wit_a (encode_klae I) == 2)%Q) by (vm_compute; reflexivity).
+  split; [apply ErrEncProofs2.sat_b_sound; vm_compute; reflexivity|]. split; [exact E2|].
+  intros b Hb. rewrite E2.
+  pose proof (wf_I exV exE 100 101 exfq exsc [] false 1 Hs Ht Hst HE NDV NDE) as WF.
+  pose proof (klae_side_I exV exE 100 101 exfq exsc [] false 1 Hs Ht Hdom) as (Hcons & Hfs & _ & _).
+  destruct (klae_decodes I b (st_rank 100 101 (exp_topo exV)) (S (S (length (exp_topo exV)))) eq_refl WF eq_refl
+              (st_rank_increasing (expV exV) (expE exV exE) 100 101 Hs Ht Hst (expE_ends exV exE HE) (exp_topo exV)
+                 (exp_topo_increasing exV exE exV Hincl Htopo))
+              (fun v => st_rank_le 100 101 Hst (exp_topo exV) v)
+              (fun c e (Hc : In c (p_cons (e_base I))) => match Hc with end) Hb) as (HP & _ & Hd & _).
+  set (P := ErrEncOptimal.dec_path (eG I) b (S (S (length (exp_topo exV))))) in *. set (w := fun i => b (W i)) in *.
+  destruct (st_paths_contract exV exE 100 101 exfq exsc [] false 1 Hs Ht Hst HE P HP) as [HPn Heq].
+  apply (Qle_trans _ (klae_cost I P w)).
+  - pose proof (klae_cost_ext exV exE 100 101 exfq exsc [] false 1 P (expP 100 101 (conP P)) w Heq) as X.
+    pose proof (klae_cost_agree exV exE 100 101 exfq exsc [] false 1 Hs Ht (conP P) w HPn) as Y.
+    pose proof (Hmin (conP P) w HPn) as Z. fold I in X, Y. lra.
+  - rewrite (ErrEncProofs.klae_objective_value I b). unfold klae_cost. apply ErrEncComplete.sumq_le_mono. intros e He.
+    fold I in Hfs. destruct (Hfs e He) as (_ & S0 & _). destruct (Hd e He) as [D1 _].
+    assert (H2 : (0 <= scale_of I e * (b (Err (fst e) (snd e)) - klae_err I P w e))%Q) by (apply Qmult_le_0_compat; lra). lra.
+Qed.
+Print Assumptions C07_node_solver_hypotheses_satisfiable.
+
+(* (b) the caller-input premises with an IGNORED node, a node with error scaling 0, weight_type = int and k = 2: chain 1 -> 2 -> 3,
+   every node weight 3, node 2 ignored, node 3 with scaling 0 -- node 1 is the only counting node; both paths are 1,2,3; the weights
+   3 and 0 explain node 1 exactly (cost 0); by C07_node_klae_satisfiable the model of the expanded instance is satisfiable *)
+Definition C07_node_V3 : list node := [1; 2; 3]%N.
+Definition C07_node_E3 : list PathEnc.edge := [(1, 2); (2, 3)]%N.
+Definition C07_node_sc0 (v : node) : Q := if (v =? 3)%N then 0%Q else 1%Q.
+Example C07_node_premises_satisfiable_with_ignored_and_unscaled_nodes :
+  nodes_basic C07_node_V3 [2%N] C07_node_sc0 = [1%N] /\
+  node_domain C07_node_V3 (fun _ => 3%Q) C07_node_sc0 [2%N] true 2 /\
+  node_paths C07_node_V3 C07_node_E3 2 (fun _ => [1; 2; 3]%N) /\
+  node_adm true 2 (fun i => if (i =? 0)%N then 3%Q else 0%Q) /\
+  (node_klae_cost C07_node_V3 (fun _ => 3%Q) C07_node_sc0 [2%N] 2 (fun _ => [1; 2; 3]%N) (fun i => if (i =? 0)%N then 3%Q else 0%Q) == 0)%Q /\
+  (exists b, sat b (encode_klae (node_err_inst C07_node_V3 C07_node_E3 100 101 (fun _ => 3%Q) C07_node_sc0 [2%N] true 2))).
+Proof.
+  assert (HD : node_domain C07_node_V3 (fun _ => 3%Q) C07_node_sc0 [2%N] true 2).
+  { split; [|split; [discriminate|lia]]. intros v Hv. cbn in Hv. destruct Hv as [<-|[]]. cbn.
+    split; [discriminate|]. split; [discriminate|]. intros _. exists 3%Z. reflexivity. }
+  assert (HP : node_paths C07_node_V3 C07_node_E3 2 (fun _ => [1; 2; 3]%N)).
+  { intros i _. split; [discriminate|]. split; [intros x Hx; exact Hx|]. split; [intros e He; exact He|].
+    split; intros u Hu; cbn in Hu; destruct Hu as [Eq|[Eq|[]]]; discriminate Eq. }
+  split; [reflexivity|]. split; [exact HD|]. split; [exact HP|].
+  split; [intros i _; destruct (i =? 0)%N; (split; [discriminate|intros _; eexists; reflexivity])|].
+  split; [vm_compute; reflexivity|].
+  apply (C07_node_klae_satisfiable C07_node_V3 C07_node_E3 100 101 C07_node_V3 (fun _ => 3%Q) C07_node_sc0 [2%N] true 2) with (Pn := fun _ => [1; 2; 3]%N);
+    try exact HD; try exact HP.
+  - cbn; intuition discriminate.
+  - cbn; intuition discriminate.
+  - discriminate.
+  - intros e He. cbn in He. destruct He as [<-|[<-|[]]]; cbn; tauto.
+  - repeat constructor; cbn; intuition discriminate.
+  - repeat constructor; cbn; intuition discriminate.
+  - intros u v Huv. cbn in Huv. destruct Huv as [Eq|[Eq|[]]]; injection Eq as <- <-; cbn; lia.
+  - apply incl_refl.
+Qed.
+Print Assumptions C07_node_premises_satisfiable_with_ignored_and_unscaled_nodes.
